@@ -16,11 +16,22 @@ pub enum Op {
     PutText { chars: u16 },
     Commit,
     Reopen,
+    /// (late-ticket histories) apply a ticket NOW: capacity = absolute end of the payload region
+    /// including the acknowledged, uncommitted puts + allowance
+    TicketNow { allowance: u32 },
 }
 
 #[derive(Debug, Clone, Serialize, Deserialize)]
 pub struct Case {
     pub allowance: u32,
+    /// run the puts inside begin_batch (automatic checkpoints disabled: acknowledged puts stay
+    /// pending while the embedded log grows)
+    #[serde(default)]
+    pub batch: bool,
+    /// do not apply the ticket up front: a TicketNow op inside the history does (after the embedded
+    /// log has grown, so the absolute offsets the code compares are the shifted ones)
+    #[serde(default)]
+    pub late_ticket: bool,
     pub ops: Vec<Op>,
 }
 
@@ -57,11 +68,22 @@ pub fn check(c: &Case) -> CheckResult {
     mem.put_bytes_with_options(&gen_blob(1, 100, BlobKind::NonUtf8), opts(0)).map_err(|e| Fail::new("infra", e.to_string()))?;
     mem.commit().map_err(|e| Fail::new("infra", e.to_string()))?;
     let seed_end = payload_end(&mem);
-    let cap = seed_end + c.allowance as u64;
-    let allowance = c.allowance as u64;
+    let mut cap = seed_end + c.allowance as u64;
+    let mut allowance = c.allowance as u64;
     let mut committed_added: u64 = 0;
-    mem.apply_ticket(Ticket::new("test", 2).capacity_bytes(cap)).map_err(|e| Fail::new("infra", e.to_string()))?;
-    ensure!(mem.get_capacity() == cap, "C24:capacity-not-applied", "get_capacity() = {} after a ticket granting {}", mem.get_capacity(), cap);
+    // absolute-offset accounting for late tickets: Some((capacity, stored bytes acknowledged since the ticket))
+    let mut late: Option<(u64, u64)> = None;
+    let mut wal_at_ticket: u64 = 0;
+    if !c.late_ticket {
+        mem.apply_ticket(Ticket::new("test", 2).capacity_bytes(cap)).map_err(|e| Fail::new("infra", e.to_string()))?;
+        ensure!(mem.get_capacity() == cap, "C24:capacity-not-applied", "get_capacity() = {} after a ticket granting {}", mem.get_capacity(), cap);
+    } else {
+        // unlimited until the TicketNow op
+        allowance = u64::MAX / 4;
+    }
+    if c.batch {
+        mem.begin_batch(memvid_core::PutManyOpts::default()).map_err(|e| Fail::new("infra", e.to_string()))?;
+    }
     let mut pending_bin: u64 = 0; // stored bytes of acknowledged, uncommitted binary puts
     let mut pending_unknown = false; // an uncommitted text put (stored size not predictable here)
     let mut crossing_with_pending = false;
@@ -76,7 +98,11 @@ pub fn check(c: &Case) -> CheckResult {
                 let before_next = mem.next_frame_id();
                 let before_hash = Sha256::digest(std::fs::read(&path).map_err(|e| Fail::new("infra", e.to_string()))?).to_vec();
                 let res = mem.put_bytes_with_options(&bytes, opts(i + 1));
-                let must_reject = is_bin && !pending_unknown && committed_added + pending_bin + l > allowance;
+                let must_reject = match late {
+                    // after a late ticket: bytes acknowledged since the ticket against its allowance
+                    Some((_, since)) => is_bin && !pending_unknown && since + l > allowance,
+                    None => is_bin && !pending_unknown && committed_added + pending_bin + l > allowance,
+                };
                 match res {
                     Ok(_) => {
                         if must_reject {
@@ -86,12 +112,17 @@ pub fn check(c: &Case) -> CheckResult {
                             ));
                         }
                         if is_bin { pending_bin += l; } else { pending_unknown = true; }
+                        if let Some((_, since)) = late.as_mut() {
+                            *since += l;
+                        }
                         // an automatic checkpoint may have materialised everything
                         if mem.frame_count() != before_count {
                             committed_added = added_bytes(&mem);
                             pending_bin = 0;
                             pending_unknown = false;
-                            ensure!(committed_added <= allowance, "C24:payload-region-exceeds-capacity", "after an automatic checkpoint {} payload bytes were added under an allowance of {}", committed_added, allowance);
+                            if late.is_none() {
+                                ensure!(committed_added <= allowance, "C24:payload-region-exceeds-capacity", "after an automatic checkpoint {} payload bytes were added under an allowance of {}", committed_added, allowance);
+                            }
                         }
                     }
                     Err(MemvidError::CapacityExceeded { .. }) => {
@@ -105,6 +136,21 @@ pub fn check(c: &Case) -> CheckResult {
                     }
                     Err(_) => return Ok(CaseInfo::trivial().class("aborted_on_put_error")),
                 }
+            }
+            Op::TicketNow { allowance: a } => {
+                if late.is_some() || !c.late_ticket || pending_unknown {
+                    continue;
+                }
+                // absolute end of everything acknowledged so far (committed frames sit at their
+                // current, possibly shifted, offsets; pending payloads will be appended behind them)
+                let end_now = payload_end(&mem) + pending_bin;
+                cap = end_now + *a as u64;
+                allowance = *a as u64;
+                if mem.apply_ticket(Ticket::new("late", 3).capacity_bytes(cap)).is_err() {
+                    return Ok(CaseInfo::trivial().class("aborted_on_ticket_error"));
+                }
+                late = Some((cap, 0));
+                wal_at_ticket = crate::hist::wal_size_of(&path);
             }
             Op::Commit | Op::Reopen => {
                 if matches!(op, Op::Commit) {
@@ -122,11 +168,34 @@ pub fn check(c: &Case) -> CheckResult {
                 committed_added = added_bytes(&mem);
                 pending_bin = 0;
                 pending_unknown = false;
+                if let Some((cap_abs, since)) = late {
+                    // everything acknowledged since the late ticket fitted its allowance, so the
+                    // committed region must end at or below the capacity
+                    if since <= allowance && payload_end(&mem) > cap_abs {
+                        let grew = crate::hist::wal_size_of(&path) > wal_at_ticket;
+                        return Err(Fail::new(
+                            if grew { "C24:log-growth-after-ticket-shifts-region-past-capacity" } else { "C24:payload-region-exceeds-capacity" },
+                            format!("op {i}: the payload region ends at {} beyond the capacity {cap_abs} granted by the ticket ({since} stored bytes acknowledged since it, allowance {allowance}; embedded log grew since the ticket: {grew})", payload_end(&mem)),
+                        ));
+                    }
+                    continue;
+                }
                 ensure!(committed_added <= allowance, "C24:payload-region-exceeds-capacity", "op {}: {} payload bytes committed since the ticket under an allowance of {} (capacity {})", i, committed_added, allowance, cap);
             }
         }
     }
-    if mem.commit().is_ok() {
+    if late.is_some() {
+        if mem.commit().is_ok() {
+            let (cap_abs, since) = late.unwrap();
+            if since <= allowance && payload_end(&mem) > cap_abs {
+                let grew = crate::hist::wal_size_of(&path) > wal_at_ticket;
+                return Err(Fail::new(
+                    if grew { "C24:log-growth-after-ticket-shifts-region-past-capacity" } else { "C24:payload-region-exceeds-capacity" },
+                    format!("final commit: the payload region ends at {} beyond the capacity {cap_abs} granted by the ticket ({since} stored bytes acknowledged since it, allowance {allowance}; embedded log grew since the ticket: {grew})", payload_end(&mem)),
+                ));
+            }
+        }
+    } else if mem.commit().is_ok() {
         let added = added_bytes(&mem);
         ensure!(added <= allowance, "C24:payload-region-exceeds-capacity", "final commit: {} payload bytes committed since the ticket under an allowance of {}", added, allowance);
     }
@@ -146,9 +215,9 @@ pub fn build(ctx: &Ctx) -> Vec<Box<dyn Arm>> {
     ctx.rule("a memory with one committed frame receives a ticket whose capacity is the current payload end + allowance (0..4096 bytes); then 1..14 ops: incompressible binary puts of 1..1600 bytes (stored length == payload length, so the projection is exact), text puts (compressed / chunked), commits, reopen; oracle: after every commit point the stored payload bytes added since the ticket are <= the allowance (implied by any correct limit on the region's end offset); a binary put with committed + pending + its own stored bytes > allowance must return CapacityExceeded, and a rejected put leaves frame_count, next_frame_id and the file's sha256 unchanged; non-trivial = a put crosses the limit while earlier puts are still uncommitted");
     ctx.assume("capacity is measured the way the code measures it (absolute offset of the payload region end); the first arm keeps payloads small so the embedded log never grows; the second arm makes it grow (the code then measures against shifted absolute offsets and may reject earlier than the byte-count model, which the one-directional oracle allows)");
     let t = ctx.tier;
-    ctx.rule("arm log_growth: allowance 60..300 KB and incompressible puts of 15..60 KB mostly without commits, so the embedded log (64 KiB) has to grow while acknowledged puts are pending and further puts then cross the limit; same oracle");
+    ctx.rule("arm log_growth: allowance 60..300 KB and incompressible puts of 15..60 KB mostly without commits and mostly inside begin_batch (no automatic checkpoint), so the embedded log (64 KiB) has to grow while acknowledged puts are pending and further puts then cross the limit; half of these histories apply the ticket only after the growth (capacity = absolute end of everything acknowledged + a small allowance), so that the offsets the code compares are the shifted ones; same oracle, with the committed region's absolute end checked against the capacity");
     vec![
-        arm_with("history", t.pick(240, 10_000), 8, t.pick(100, 300), || (prop_oneof![0u32..128, 0u32..4096], prop::collection::vec(op(), 1..14)).prop_map(|(allowance, ops)| Case { allowance, ops }), check),
+        arm_with("history", t.pick(240, 10_000), 8, t.pick(100, 300), || (prop_oneof![0u32..128, 0u32..4096], prop::collection::vec(op(), 1..14)).prop_map(|(allowance, ops)| Case { allowance, ops, batch: false, late_ticket: false }), check),
         arm_with(
             "log_growth",
             t.pick(60, 1500),
@@ -157,9 +226,19 @@ pub fn build(ctx: &Ctx) -> Vec<Box<dyn Arm>> {
             || {
                 (
                     60_000u32..300_000,
+                    prop::bool::weighted(0.7),
                     prop::collection::vec(prop_oneof![10 => (15_000u16..60_000).prop_map(|len| Op::PutBin { len }), 2 => (0u16..2000).prop_map(|len| Op::PutBin { len }), 1 => Just(Op::Commit)], 3..12),
                 )
-                    .prop_map(|(allowance, ops)| Case { allowance, ops })
+                    .prop_map(|(allowance, batch, mut ops)| {
+                        // half of the histories apply the ticket late: after enough big puts for the
+                        // log to have grown, a TicketNow with a small allowance, then more puts
+                        let late_ticket = allowance % 2 == 0;
+                        if late_ticket {
+                            let at = ops.len().min(3 + (allowance as usize % 3));
+                            ops.insert(at, Op::TicketNow { allowance: 1000 + allowance % 40_000 });
+                        }
+                        Case { allowance, ops, batch, late_ticket }
+                    })
             },
             check,
         ),
